@@ -9,7 +9,7 @@ from engine.extract import REPO
 LEVEL = "other"
 MIN_OBLIGATIONS = 40
 THOROUGH_CONFIGS = ("headeronly",)
-TECHNIQUE = "INI key table extracted from settings.value() calls vs the Markdown reference tables; construction table by CFG reachability under every truth assignment of each key's guard; append order by dominance; sibling predicate agreement; handler install/restore protocol by projection; global rule: no function-local static initialised from a parameter; construction-parameter agreement of the fallback formatter with PrettyFormatter::instance() (constructor defaults from the fact base); front-end forwarding rule (every parameter used, same-named parameters forwarded); INI numbers keep their meaning for the sink (by cases over the sink's classes); no virtual dispatch from base-class constructors / destructors to methods a library subclass overrides; LogMessage null / empty text rules shared"
+TECHNIQUE = "INI key table extracted from settings.value() calls vs the Markdown reference tables; construction table by CFG reachability under every truth assignment of each key's guard; append order by dominance; sibling predicate agreement; handler install/restore protocol by projection; global rule: no function-local static initialised from a parameter; construction-parameter agreement of the fallback formatter with PrettyFormatter::instance() (constructor defaults from the fact base); front-end forwarding rule (every parameter used, same-named parameters forwarded); INI numbers keep their meaning for the sink (by cases over the sink's classes); no virtual dispatch from base-class constructors / destructors to methods a library subclass overrides; LogMessage null / empty text rules shared; every escape sequence in the string literals of the pretty formatter's code is one the stripping expression removes; no verdict memo keyed by a C-string address (also inside pair / tuple keys) in the filters the front-ends build; a settings read inside a spliced phase function is part of configure(), only an accessor hands the read out"
 LEVEL_TEXT = ("Decides for every combination of the INI keys and configure() arguments which handler objects are created, with which arguments and in which order, by enumerating "
               "the truth assignments of each guard on the CFG (not by running configure), and compares the key table (names, types, defaults) with docs/configuration.md. "
               "The install/restore protocol of the Qt message handler is decided on all paths. End-to-end delivery per configuration is run-time and not decided.")
